@@ -154,6 +154,9 @@ func (o *Observer) ObsGet(sc *cstate.StateContext, key datastore.Key, v util.MPT
 	} else if o.Shadow && o.foreignSince[key] && confused {
 		if again, seen := o.foreignSince[key+"|"+tn]; seen && !again {
 			// re-cached from the trie after the foreign insert: consistent with the trie
+		} else if o.sameAsTrie(v, got, trieRead) {
+			// the foreign insert happened on another branch (a sibling block): this branch's trie still holds exactly
+			// the value the cache serves
 		} else {
 			// the cache still serves a value although the key was since overwritten with a value of another type
 			o.Mismatches = append(o.Mismatches, CacheMismatch{Key: key, Type: tn, TxnHash: th, Kind: "stale-after-foreign-insert", Cache: got})
@@ -193,6 +196,24 @@ func (o *Observer) ObsGet(sc *cstate.StateContext, key datastore.Key, v util.MPT
 		}
 		o.Ops = append(o.Ops, Op{Kind: k, Key: key, Type: tn, TxnHash: th, Bytes: got})
 	}
+}
+
+// sameAsTrie decodes the trie's value of the key into a fresh instance of v's type and compares encodings.
+func (o *Observer) sameAsTrie(v util.MPTSerializable, got []byte, trieRead func(out util.MPTSerializable) error) (same bool) {
+	defer func() {
+		if recover() != nil {
+			same = false
+		}
+	}()
+	rt := reflect.TypeOf(v)
+	if rt == nil || rt.Kind() != reflect.Ptr {
+		return false
+	}
+	fresh := reflect.New(rt.Elem()).Interface().(util.MPTSerializable)
+	if err := trieRead(fresh); err != nil {
+		return false
+	}
+	return bytes.Equal(enc(fresh), got)
 }
 
 // ObsInsert implements the hook.
